@@ -310,6 +310,72 @@ def portfolioRun (stopOnFirstFailure : Bool) (ms : List Member) : Option Portfol
   if stopSignal == panic.isSome then panic.map PortfolioRaised.member
   else some .assertion
 
+/-! ## Steps of a process: plain runs and portfolio runs
+
+  A portfolio member is an ordinary `Runner::run` on a freshly spawned OS thread (so its `thread` must
+  be an id not used by any other run of the history); the members share the process-wide hook with
+  everything else.  Members run concurrently, but they interact only through the hook's captured
+  config (identical for all members) and through per-thread cells (distinct threads), so executing
+  them one after the other is faithful. -/
+
+inductive Step where
+  | single (r : Run)
+  | portfolio (stopOnFirstFailure : Bool) (members : List Run)
+  deriving Repr, Inhabited
+
+inductive StepRaised where
+  | run (r : Raised)
+  | portfolio (p : Option PortfolioRaised)
+  deriving DecidableEq, Repr, Inhabited
+
+structure StepOutcome where
+  emissions : List Emission
+  raised : StepRaised
+  deriving DecidableEq, Repr, Inhabited
+
+/-- the `thread.join()` results of the members, payload = member index -/
+def toMembers : Nat → List Outcome → List Member
+  | _, [] => []
+  | j, o :: os => (if o.raised = .nothing then Member.passed else Member.failed j) :: toMembers (j + 1) os
+
+def execStep (s : State) : Step → StepOutcome × State
+  | .single r =>
+    let (o, s') := execRun s r
+    (⟨o.emissions, .run o.raised⟩, s')
+  | .portfolio stop ms =>
+    let (os, s') := runFrom s ms
+    (⟨os.flatMap (·.emissions), .portfolio (portfolioRun stop (toMembers 0 os))⟩, s')
+
+def runSteps (s : State) : List Step → List StepOutcome × State
+  | [] => ([], s)
+  | st :: sts =>
+    let (o, s1) := execStep s st
+    let (os, s2) := runSteps s1 sts
+    (o :: os, s2)
+
+def stepHistory (h : List Step) : List StepOutcome := (runSteps State.init h).1
+
+namespace Fixed
+
+def execStep (s : State) : Step → StepOutcome × State
+  | .single r =>
+    let (o, s') := execRun s r
+    (⟨o.emissions, .run o.raised⟩, s')
+  | .portfolio stop ms =>
+    let (os, s') := runFrom s ms
+    (⟨os.flatMap (·.emissions), .portfolio (portfolioRun stop (toMembers 0 os))⟩, s')
+
+def runSteps (s : State) : List Step → List StepOutcome × State
+  | [] => ([], s)
+  | st :: sts =>
+    let (o, s1) := execStep s st
+    let (os, s2) := runSteps s1 sts
+    (o :: os, s2)
+
+def stepHistory (h : List Step) : List StepOutcome := (runSteps State.init h).1
+
+end Fixed
+
 /-! ## Spec strings (shared with the Rust harness `vh_c12`) and the prediction printer
 
   spec := item (',' item)*      item := persist ':' body ['+' k] ['@' t]
@@ -317,7 +383,9 @@ def portfolioRun (stopOnFirstFailure : Bool) (ms : List Member) : Option Portfol
   Bodies are the fixed test bodies of `vh_c12.rs`, run under `RoundRobinScheduler`; `bodyShape`
   gives, for each, the failure kind and the schedule length at failure as a function of `k`
   (the number of extra `yield_now()` the main task performs first).  These constants are
-  calibration data for the harness bodies, checked by the differential run (`len=` field). -/
+  calibration data for the harness bodies, checked by the differential run (`len=` field).
+  `pf_pass | pf_fail1 | pf_fail2` are `PortfolioRunner` runs (stop_on_first_failure = true) with two
+  members of which 0 / 1 / 2 fail like `panic_main`. -/
 
 structure BodyShape where
   kind : FailKind
@@ -334,6 +402,14 @@ def bodyShape (body : String) (k : Nat) : Option BodyShape :=
   | "stepfail" => some ⟨.stepBoundFail, 5 + k, 0⟩
   | "stepcont" => some ⟨.stepBoundContinue, 5 + k, 0⟩
   | "pass" => some ⟨.pass, 10 + k, 0⟩
+  | _ => none
+
+/-- number of failing members of the portfolio bodies -/
+def portfolioShape (body : String) : Option Nat :=
+  match body with
+  | "pf_pass" => some 0
+  | "pf_fail1" => some 1
+  | "pf_fail2" => some 2
   | _ => none
 
 def parsePersist : String → Option Persist
@@ -353,7 +429,24 @@ def optNat : Option String → Option Nat
   | none => some 0
   | some s => s.toNat?
 
-def parseItem (s : String) : Option Run :=
+/-- a parsed spec item: the step plus what the printer needs -/
+structure Item where
+  persist : Persist
+  kindName : String
+  step : Step
+  /-- printed `len=` field -/
+  lenStr : String
+  /-- the length a complete schedule of this item has (for `replay=`) -/
+  fullLen : Nat
+  /-- the `n` of `stepbound-<n>` -/
+  bound : Nat
+
+def FailKind.name : FailKind → String
+  | .taskPanic => "taskPanic" | .deadlock => "deadlock" | .stepBoundFail => "stepBoundFail"
+  | .stepBoundContinue => "stepBoundContinue" | .pass => "pass"
+
+/-- `i` = index of the item in the spec (used to give portfolio members fresh thread ids) -/
+def parseItem (i : Nat) (s : String) : Option Item :=
   match splitFirst s ":" with
   | (_, none) => none
   | (p, some rest) =>
@@ -361,63 +454,82 @@ def parseItem (s : String) : Option Run :=
     let (b, k) := splitFirst rest "+"
     match parsePersist p, optNat k, optNat t with
     | some persist, some k, some t =>
-      match bodyShape b k with
-      | some sh => some { persist, failure := sh.kind, schedLen := sh.len, unwind := sh.unwind, thread := t }
-      | none => none
+      match bodyShape b k, portfolioShape b with
+      | some sh, _ =>
+        let r : Run := { persist, failure := sh.kind, schedLen := sh.len, unwind := sh.unwind, thread := t }
+        some ⟨persist, sh.kind.name, .single r, toString r.finalLen, r.finalLen, sh.len⟩
+      | none, some nfail =>
+        let member (j : Nat) : Run :=
+          { persist, failure := if j < nfail then .taskPanic else .pass, schedLen := 1 + k,
+            thread := 1000 + 10 * i + j }
+        some ⟨persist, "portfolio", .portfolio true [member 0, member 1], "-", 1 + k, 0⟩
+      | none, none => none
     | _, _, _ => none
 
-def parseSpec (s : String) : Option (List Run) :=
-  ((s.splitOn ",").filter (· ≠ "")).mapM parseItem
+def parseItems : Nat → List String → Option (List Item)
+  | _, [] => some []
+  | i, s :: ss =>
+    match parseItem i s, parseItems (i + 1) ss with
+    | some it, some its => some (it :: its)
+    | _, _ => none
+
+def parseSpec (s : String) : Option (List Item) :=
+  parseItems 0 ((s.splitOn ",").filter (· ≠ ""))
 
 def Persist.name : Persist → String
   | .none => "none" | .print => "print" | .file => "file"
 
-def FailKind.name : FailKind → String
-  | .taskPanic => "taskPanic" | .deadlock => "deadlock" | .stepBoundFail => "stepBoundFail"
-  | .stepBoundContinue => "stepBoundContinue" | .pass => "pass"
-
-def raisedName (r : Run) : Raised → String
-  | .nothing => "none"
-  | .taskPayload => "payload"
-  | .deadlockMsg => "deadlock"
-  | .stepBoundMsg => s!"stepbound-{r.schedLen}"   -- the harness sets the bound to the failing length
+def raisedName (it : Item) : StepRaised → String
+  | .run .nothing => "none"
+  | .run .taskPayload => "payload"
+  | .run .deadlockMsg => "deadlock"
+  | .run .stepBoundMsg => s!"stepbound-{it.bound}"   -- the harness sets the bound to the failing length
+  | .portfolio none => "none"
+  | .portfolio (some (.member _)) => "payload"
+  | .portfolio (some .assertion) => "assertion"
 
 def countChan (c : Chan) (es : List Emission) : Nat := (es.filter (·.chan = c)).length
 
-def replayName (r : Run) (es : List Emission) : String :=
-  if es.isEmpty then "n/a" else if es.all (replaysSame r) then "same" else "differs"
+def replayName (it : Item) (es : List Emission) : String :=
+  if es.isEmpty then "n/a" else if es.all (fun e => e.len == it.fullLen) then "same" else "differs"
 
-def formatLine (i : Nat) (r : Run) (o : List Emission × Raised) : String :=
-  s!"run {i} persist={r.persist.name} kind={r.failure.name} raised={raisedName r o.2} " ++
-  s!"emitted=stderr:{countChan .stderr o.1},file:{countChan .file o.1} replay={replayName r o.1} len={r.finalLen}"
+def formatLine (i : Nat) (it : Item) (o : StepOutcome) : String :=
+  s!"run {i} persist={it.persist.name} kind={it.kindName} raised={raisedName it o.raised} " ++
+  s!"emitted=stderr:{countChan .stderr o.emissions},file:{countChan .file o.emissions} " ++
+  s!"replay={replayName it o.emissions} len={it.lenStr}"
 
-def formatLines : Nat → List Run → List (List Emission × Raised) → List String
+def formatLines : Nat → List Item → List StepOutcome → List String
   | i, r :: rs, o :: os => formatLine i r o :: formatLines (i + 1) rs os
   | _, _, _ => []
 
+def predictLines (fixed : Bool) (spec : String) : Option (List String) :=
+  match parseSpec spec with
+  | none => none
+  | some items =>
+    let steps := items.map (·.step)
+    some (formatLines 0 items (if fixed then Fixed.stepHistory steps else stepHistory steps))
+
 /-- spec ↦ the canonical lines `vh_c12 parent <spec>` is predicted to print (current code) -/
 def predictLine (spec : String) : String :=
-  match parseSpec spec with
+  match predictLines false spec with
   | none => s!"error: bad spec {spec}"
-  | some runs => "\n".intercalate (formatLines 0 runs (runHistory runs))
+  | some ls => "\n".intercalate ls
 
 /-- the same for the fixed behaviour -/
 def predictLineFixed (spec : String) : String :=
-  match parseSpec spec with
+  match predictLines true spec with
   | none => s!"error: bad spec {spec}"
-  | some runs => "\n".intercalate (formatLines 0 runs (Fixed.runHistory runs))
+  | some ls => "\n".intercalate ls
 
 /-- like `predictLine`, every line prefixed by `spec=<spec> ` (the format of `vh_c12 sweep`) -/
 def predictSweep (spec : String) : String :=
-  match parseSpec spec with
+  match predictLines false spec with
   | none => s!"spec={spec} error: bad spec"
-  | some runs =>
-    "\n".intercalate ((formatLines 0 runs (runHistory runs)).map fun l => s!"spec={spec} {l}")
+  | some ls => "\n".intercalate (ls.map fun l => s!"spec={spec} {l}")
 
 def predictSweepFixed (spec : String) : String :=
-  match parseSpec spec with
+  match predictLines true spec with
   | none => s!"spec={spec} error: bad spec"
-  | some runs =>
-    "\n".intercalate ((formatLines 0 runs (Fixed.runHistory runs)).map fun l => s!"spec={spec} {l}")
+  | some ls => "\n".intercalate (ls.map fun l => s!"spec={spec} {l}")
 
 end ShuttleModel.Failure
